@@ -35,7 +35,10 @@ namespace pika::detail {
             if (key[key.size() - 1] == '!') key.erase(key.size() - 1);
 
             std::string value(trim_whitespace(s.substr(p + 1)));
-            config_.insert(map_type::value_type(key, value));
+            // a later entry for the same key overrides an earlier one (as for all other ini
+            // entries): the command line comes after PIKA_COMMANDLINE_OPTIONS and after the
+            // pre-configured settings
+            config_[key] = value;
         }
     }
 }    // namespace pika::detail
